@@ -28,9 +28,12 @@ def session(rng, kind):
             if rng.random() < 0.3:
                 steps.append({"op": "del", "k": rng.randrange(nk)})
     else:
-        mem = {"norot": 1 << 30, "onerot": 700, "manyrot": 120}[kind]
+        mem = {"norot": 1 << 30, "onerot": 700, "manyrot": 120, "dio": rng.choice([700, 150])}[kind]
+        extra = {"async": True}
+        if kind == "dio":    # direct-I/O WAL: block-aligned writes, zero padding behind the last record
+            extra["directio"] = True
         steps.append(dict(dbgen.open_step(rng.choice([1, 2]), 1 << 30, 1000, mem=mem, bg=(kind == "manyrot"), interval_us=1500, wbuf=rng.choice([64, 4096])),
-                          **{"async": True}))
+                          **extra))
         for i in range(30):
             k = rng.randrange(nk)
             steps.append({"op": "put", "k": k, "v": u.next(), "pad": rng.choice([0, 30])} if rng.random() < 0.7 else {"op": "del", "k": k})
@@ -48,9 +51,9 @@ def run(tier):
     binary = common.build_harness()
     import judge
     judge.model_check("SimpleDBDisk.tla", "MC_Disk_sync.cfg", o, "exhaustive disk protocol (shared with C02)")
-    kinds = ["norot", "onerot", "manyrot", "wrap"]
-    n = 24 if thorough else 8
-    sessions = [("%s-%d" % (kinds[i % 4], i), session(rng, kinds[i % 4])) for i in range(n)]
+    kinds = ["norot", "onerot", "manyrot", "wrap", "dio"]
+    n = 25 if thorough else 10
+    sessions = [("%s-%d" % (kinds[i % 5], i), session(rng, kinds[i % 5])) for i in range(n)]
     npoints, nd, descs, nok, nbad = c02.run_sessions(o, binary, sessions, "async", PID)
     common.log("[C13] %d sessions, %d crash points (%d distinct images), %d allowed, %d rejected" % (n, npoints, nd, nok, nbad))
     o.traces, o.evaluations, o.nontrivial = n, npoints, nd
